@@ -191,6 +191,20 @@ impl<TStdlib: Stdlib, TStdIn: Input, TStdOut: Printer, TLpt1: Printer> Interpret
             nearest_statement_finder: NearestStatementFinder::new(statement_addresses),
         };
         while i < instructions.len() && !ctx.halt {
+            #[cfg(rusty_basic_verif)]
+            crate::interpreter::verif::on_instruction(
+                i,
+                [
+                    self.value_stack.len(),
+                    self.register_stack.len(),
+                    self.var_path_stack.len(),
+                    self.by_ref_stack.len(),
+                    self.return_address_stack.len(),
+                    self.go_sub_address_stack.len(),
+                    self.stacktrace.len(),
+                ],
+                &self.context,
+            );
             let instruction = &instructions[i].element;
             let pos = instructions[i].pos();
             match self.interpret_one(i, instruction, pos, &mut ctx) {
